@@ -1058,14 +1058,23 @@ def respStatusLine (s : RespSt) (line : Bytes) : Except Exn RespSt :=
           | none => .error .unknownProtocol
           | some v => .ok { s with status := i.toNat, reason := reason, vminor := v, phase := .head [] }
 
+/-- how the body is framed: chunked, a known length, or until the far side closes -/
+def respBodyPhase (chunked : Bool) (length : Option Nat) : PPhase :=
+  if chunked then .csize else
+    match length with
+    | some n => .body n
+    | none => .untilClose
+
 def respHeadDone (s : RespSt) (h : Hdrs) : Except Exn RespSt :=
-  let chunked := isChunked h
-  let length0 : Option Nat := if chunked then none else
+  let chunked0 := isChunked h
+  let length0 : Option Nat := if chunked0 then none else
     match contentLength h with
     | none => none
     | some l => l
-  let length := if s.status == statusNoContent || s.status == statusNotModified || (100 ≤ s.status && s.status < 200) || s.head
-                then some 0 else length0
+  -- responses to HEAD and with status 1xx / 204 / 304 have no body whatever their header fields say
+  let bodiless := s.status == statusNoContent || s.status == statusNotModified || (100 ≤ s.status && s.status < 200) || s.head
+  let chunked := if bodiless then false else chunked0
+  let length := if bodiless then some 0 else length0
   let ct := hget h (ascii "content-type")
   let evented : Option Bool := match ct with
     | some c => if c.isEmpty then s.evented else
@@ -1087,10 +1096,7 @@ def respHeadDone (s : RespSt) (h : Hdrs) : Except Exn RespSt :=
   let s := { s with headers := h, chunked := chunked, length := length, evented := evented, persisted := persisted,
                     body := [], ssePend := if newEs then [] else s.ssePend,
                     sse := if newEs then {} else s.sse }
-  if chunked then .ok { s with parms := some [], phase := .csize }
-  else match length with
-    | some n => .ok { s with phase := .body n }
-    | none => .ok { s with phase := .untilClose }
+  .ok { s with parms := if chunked then some [] else s.parms, phase := respBodyPhase chunked length }
 
 def respOnLineE (s : RespSt) (line : Bytes) : Except Exn RespSt :=
   match s.phase with
